@@ -503,6 +503,54 @@ pub fn check_asn1(idx: u64, seed: u64, rep: &mut Report) {
             }
         }
     }
+    // SEQUENCE OF with 0..4 elements (octet strings, integers) through the generic model: as many elements come back as
+    // were encoded, each with its content, and the library's encoding is the reference DER
+    {
+        use crate::refs::ber::{der, Asn};
+        use rdp::nla::asn1::SequenceOf;
+        let k = (idx % 5) as usize;
+        let octets = idx / 5 % 2 == 0;
+        let items: Vec<Vec<u8>> = (0..k).map(|_| { let l = *r.pick(&[0usize, 1, 5, 127, 128, 300]); r.bytes(l) }).collect();
+        let ints: Vec<u32> = (0..k).map(|_| *r.pick(&[0u32, 1, 127, 128, 255, 256, 0x7fff, 0x8000, 0xffffff, 0x7fffffff])).collect();
+        let want = if octets { der(&Asn::Seq(items.iter().map(|i| Asn::Octets(i.clone())).collect())) } else { der(&Asn::Seq(ints.iter().map(|i| Asn::Int(*i as u64)).collect())) };
+        let (it2, in2, w2) = (items.clone(), ints.clone(), want.clone());
+        let res = mon::guarded(move || {
+            let mut out = SequenceOf::new();
+            for i in 0..k {
+                if octets {
+                    out.inner.push(Box::new(it2[i].clone()));
+                } else {
+                    out.inner.push(Box::new(in2[i] as Integer));
+                }
+            }
+            let enc = to_der(&out);
+            let mut back = if octets { SequenceOf::reader(|| Box::new(OctetString::new())) } else { SequenceOf::reader(|| Box::new(0 as Integer)) };
+            let dec = from_der(&mut back, &w2).map_err(|e| crate::client::err_kind(&e));
+            let got: Vec<(Option<Vec<u8>>, Option<u32>)> = back
+                .inner
+                .iter()
+                .map(|e| match e.visit() {
+                    ASN1Type::OctetString(o) => (Some(o.clone()), None),
+                    ASN1Type::U32(i) => (None, Some(i)),
+                    _ => (None, None),
+                })
+                .collect();
+            (enc, dec, got)
+        });
+        let rp2 = json!({"part": "asn1", "gen": [2, idx, seed], "sequence_of": k, "octets": octets});
+        match res {
+            Err(p) => v(rep, &format!("asn1/sequence-of/{}", p.sig()), p.msg.clone(), rp2),
+            Ok((enc, dec, got)) => {
+                if enc != want {
+                    v(rep, "asn1/sequence-of/encoding-differs", format!("{} elements: library {} bytes, reference {} bytes", k, enc.len(), want.len()), rp2.clone());
+                }
+                let expect: Vec<(Option<Vec<u8>>, Option<u32>)> = if octets { items.iter().map(|i| (Some(i.clone()), None)).collect() } else { ints.iter().map(|i| (None, Some(*i))).collect() };
+                if dec.is_err() || got != expect {
+                    v(rep, "asn1/sequence-of/decodes-differently", format!("{} elements encoded, reader returned {:?} and holds {} elements (equal: {})", k, dec, got.len(), got == expect), rp2);
+                }
+            }
+        }
+    }
     rep.nontrivial(0x3000_0000_0000 | idx);
 }
 
